@@ -244,6 +244,8 @@ func DecodeClaimsFromJSON(buf []byte) (IClaims, error) {
 	var found IProfile
 
 	for name, entry := range profilesRegister {
+		verifObserve("json-dispatch-visit", name)
+
 		if profileTag, ok := decoded[entry.JSONTag]; ok {
 			if profileTag != entry.Profile.GetName() {
 				continue
